@@ -63,10 +63,10 @@ func genMulti(t *rapid.T) multiCase {
 	return c
 }
 
-// buildTexts writes each alignment (base rows repeated reps[i] times) with the Phylip writer
-func buildTexts(alis []gen.Ali, reps []int, strict bool, opts []phyOpt) (texts []string, want []model, err error) {
+// buildTexts writes each alignment (base alignment blown up by shapes[i]) with the Phylip writer
+func buildTexts(alis []gen.Ali, shapes []shape, d dom, strict bool, opts []phyOpt) (texts []string, want []model, err error) {
 	for i, a := range alis {
-		al, m, e := buildModel(expand(a, repAt(reps, i)))
+		al, m, e := buildModel(expand(a, shapeAt(shapes, i), d))
 		if e != nil {
 			return nil, nil, e
 		}
@@ -78,7 +78,7 @@ func buildTexts(alis []gen.Ali, reps []int, strict bool, opts []phyOpt) (texts [
 
 // buildStream writes the alignments one after the other with the Phylip writer
 func buildStream(alis []gen.Ali, strict bool, opts []phyOpt) (text string, want []model, err error) {
-	texts, want, err := buildTexts(alis, nil, strict, opts)
+	texts, want, err := buildTexts(alis, nil, dom{Strict: strict}, strict, opts)
 	return strings.Join(texts, ""), want, err
 }
 
@@ -269,6 +269,7 @@ func TestAutoDetect(t *testing.T) { pbt.Run(t, genAuto, checkAuto) }
 
 type chainCase struct {
 	Ali   gen.Ali `json:"ali"`
+	Shape shape   `json:"shape"`
 	Steps []cfg   `json:"steps"`
 }
 
@@ -278,12 +279,16 @@ func genChain(t *rapid.T) chainCase {
 	for i := 0; i < k; i++ {
 		c.Steps = append(c.Steps, genCfg(t, "cfg"))
 	}
+	if rapid.IntRange(0, 11).Draw(t, "manyrows") == 0 {
+		c.Ali, c.Shape = genMany(t, domOf(c.Steps...), c.Steps...)
+		return c
+	}
 	c.Ali = genAli(t, domOf(c.Steps...), pbt.Scale(170, 600), c.Steps...)
 	return c
 }
 
 func checkChain(c chainCase) (o pbt.Outcome, err error) {
-	if len(c.Steps) < 1 || !inDomain(c.Ali, domOf(c.Steps...)) {
+	if len(c.Steps) < 1 || !inDomain(c.Ali, domOf(c.Steps...)) || !c.Shape.valid() {
 		o.Skip = true
 		return o, nil
 	}
@@ -293,7 +298,8 @@ func checkChain(c chainCase) (o pbt.Outcome, err error) {
 			return o, nil
 		}
 	}
-	first, want, err := buildModel(c.Ali)
+	full := expand(c.Ali, c.Shape, domOf(c.Steps...))
+	first, want, err := buildModel(full)
 	if err != nil {
 		return o, err
 	}
@@ -313,7 +319,7 @@ func checkChain(c chainCase) (o pbt.Outcome, err error) {
 		}
 		cur = next
 		var sub pbt.Outcome
-		if classify(&sub, "", s, c.Ali) {
+		if classify(&sub, "", s, full) {
 			nt = true
 		}
 		formats[s.Format] = true
@@ -325,10 +331,11 @@ func checkChain(c chainCase) (o pbt.Outcome, err error) {
 		return o, fmt.Errorf("chain %s: the last alignment differs from the first: %v", showCfgs(c.Steps), e)
 	}
 	// the source was not modified on the way
-	if !gen.SameRows(gen.Snapshot(first), c.Ali.Rows) {
+	if !gen.SameRows(gen.Snapshot(first), full.Rows) {
 		return o, fmt.Errorf("chain %s: the first alignment was modified by writing it", showCfgs(c.Steps))
 	}
 	o.Class("chain of %d", len(c.Steps))
+	o.Class("shape: %s", shapeClass(c.Shape))
 	o.Class("distinct formats in chain: %d", len(formats))
 	o.Class("alphabet=%s", refAlphabet(c.Ali))
 	o.NonTrivial = nt && len(formats) > 1
